@@ -81,8 +81,8 @@ def build(tier):
                     'step sanity over the reals: lsearchk_t::get hands do_get a step > 0 (stpmin = 10 eps in (0,1], clamp, *0.3, *3); backtracking / LeMarechal / Fletcher / zoom: every std::clamp has lower <= upper and a lower bound > 0, the bracket invariants (0 <= L < t < R; 0 <= prev < curr = t; non-negative zoom bracket) are inductive, success => returned step > 0 and state evaluated at exactly that step',
                     'lsearch_step_t::interpolate returns a finite value or else the bisection point 0.5*(u.t+v.t) for every mode; bisection and the (t, f, g) constructor equal their definitions',
                     'More-Thuente do_get (+ dcstep): success => the state is the valid evaluation at the returned step, the value / slope read by the convergence test are those of the current trial state, <= max_iterations evaluations, the loop terminates; its convergence exit implies Armijo + strong Wolfe (over the reals)',
-                    'CG_DESCENT: interval_t constructor / updateA / updateB / done, make_params, move, updateU, update, bracket and the move_update_and_check_done lambda under protocol contracts (tentative state = evaluation at interval.step_size; done() true => criterion pair evaluated true on the tentative point or give-up; every evaluation but one per updateU / lambda call is paid by the shared budget); do_get composed from these contracts: success => state is the valid evaluation at the returned step, <= 7*max_iterations+1 evaluations, the loops terminate',
-                    'REFUTED on the unchanged library (genuine, natively replayed on f(x)=x^2): More-Thuente and CG_DESCENT report success at give-up exits where the advertised conditions do not hold (advertised/morethuente_do_get, advertised/cgdescent_do_get)'],
+                    'CG_DESCENT: interval_t constructor / updateA / updateB / done / converged, make_params, move, updateU, update, bracket and the move_update_and_check_done lambda under protocol contracts (tentative state = evaluation at interval.step_size; done() true => criterion pair evaluated true on the tentative point or give-up; every evaluation but one per updateU / lambda call is paid by the shared budget); do_get composed from these contracts: success => state is the valid evaluation at the returned step, <= 7*max_iterations+1 evaluations, the loops terminate',
+                    'More-Thuente and CG_DESCENT: success => the advertised conditions hold on the returned point -- More-Thuente: Armijo + strong Wolfe as formulas over the value and slope of the returned state (every return site, over the reals); CG_DESCENT: success is interval_t::converged(), i.e. valid state and (Armijo, Wolfe) or (approximate Armijo, approximate Wolfe) evaluated true on the returned state with the returned step (both were refuted before the repairs 297525f / e2bae93, see known_findings.txt)'],
         'not_decided': ['success on convex quadratics (needs the numerics of interpolation)',
                         'More-Thuente: positivity of the returned step (the fallback `stp = stx` may hand back the origin; excluding it needs the numerics of dcstep) and which of the two interpolation stages is active (the stage switch only selects the arguments of dcstep: no protocol-level consequence)',
                         'CG_DESCENT: positivity of the returned step (secant / theta-combination numerics)',
@@ -92,7 +92,7 @@ def build(tier):
                         'lsearch_step_t::cubic / quadratic / secant return an arbitrary double (havoc); in the protocol targets of back end A lsearch_step_t::interpolate is an arbitrary double as well',
                         'IEEE double treated as real in the pred/, steps/ and advertised/ obligations (back end B); std::isfinite is true there; machine epsilon = 2^-52; epsilon0 / epsilon1 are some positive constants',
                         'Eigen dot product is an opaque symmetric real function of its two operands',
-                        'back end B uses the contracts of lsearchk_t::update, fletcher zoom, interval_t::done, bracket, move_update_and_check_done, make_params and the interval_t constructor in the form proved by back end A (restated as SMT in step_smt.py / adv_smt.py: the correspondence of the two statements is by inspection)',
+                        'back end B uses the contracts of lsearchk_t::update, fletcher zoom, interval_t::done, interval_t::converged, bracket, move_update_and_check_done, make_params and the interval_t constructor in the form proved by back end A (restated as SMT in step_smt.py / adv_smt.py: the correspondence of the two statements is by inspection)',
                         'More-Thuente over the reals: dcstep overwrites its eight by-reference results with arbitrary values (its real body is under the back-end-A target morethuente_do_get)',
                         'the ghost records of the approximate predicates (nv_cgd) are not part of the frame of the virtual do_get contract used by lsearchk_t::get (they are specification-only objects)'],
         'trusted': [],
